@@ -31,12 +31,31 @@ def main():
         sys.exit(mod.replay(dis))
     res = common.Result(pid, a.tier, a.seed)
     if b['driver_ok']:
+        # a changed implementation may hang or explode: bound the whole exploration and the address space
+        import threading
+        import _thread
+        import resource
+        deadline = float(os.environ.get('VERIF_DEADLINE', '2400' if a.tier == 'quick' else '36000'))
+        timer = threading.Timer(deadline, _thread.interrupt_main)
+        timer.daemon = True
+        timer.start()
+        try:
+            resource.setrlimit(resource.RLIMIT_AS, (16 << 30, resource.RLIM_INFINITY))
+        except (ValueError, OSError):
+            pass
         try:
             mod.run(res)
+        except KeyboardInterrupt:
+            res.disagree('the exploration did not finish within %.0f s (an implementation call hangs or has become extremely slow)' % deadline,
+                         None, None, None, sig={'harness_error': 'deadline'})
+        except (MemoryError, common.ImplTimeout) as e:
+            res.disagree('implementation call exhausted memory or time: ' + repr(e), None, None, None, sig={'harness_error': repr(e)})
         except Exception as e:  # harness failure must not look like success
             import traceback
             traceback.print_exc()
             res.disagree('harness error: ' + repr(e), None, None, None, sig={'harness_error': repr(e)})
+        finally:
+            timer.cancel()
     else:
         res.extra['driver'] = 'model driver could not be built; correspondence not run'
     sys.exit(common.finish(res, mod.INFO, t0))
